@@ -1280,7 +1280,8 @@ def cliop_case(rng, rep, op):
     A = TA(list(dict.fromkeys(A.rules)), sorted(set(A.finals)))
     if op in ("union", "isect"):
         B = TA(list(dict.fromkeys(B.rules)), sorted(set(B.finals)))
-        return f"cliop {rep} {op} {A.tok()} {B.tok()}"
+        # a third of the cases: state names that contain the CLI's own name separators (`_1|`)
+        return f"cliop {rep} {op} {A.tok()} {B.tok()}" + (" nm=1" if rng.random() < 0.35 else "")
     return f"cliop {rep} {op} {A.tok()}"
 
 
@@ -1314,11 +1315,12 @@ from gen_ordvec import g_ordvec
 from gen_achain import g_achain
 from gen_bddsim import g_bddsim
 from gen_binrel import g_binrel
+from gen_cacheh import g_cacheh
 
 
 GENERATORS = {
     "apisweep": g_apisweep,
-    "ordvec": g_ordvec, "achain": g_achain, "bddsim": g_bddsim, "binrel": g_binrel,
+    "ordvec": g_ordvec, "achain": g_achain, "bddsim": g_bddsim, "binrel": g_binrel, "cacheh": g_cacheh,
     **{k: mk_cliop(v) for k, v in CLIOPS.items()},
     "meta": g_meta, "metaf": g_metaf,
     "parse": g_parse,
